@@ -574,9 +574,11 @@ def _hkey(v):
     if isinstance(v, (int, np.integer)):
         return ("n", float(v))
     if isinstance(v, (float, np.floating)):
-        return ("n", float(v))
+        # -0.0 and 0.0 are one value, and values that differ in the last bits are one value: the passes
+        # re-associate products/sums (Assign flattens its right-hand side), which moves the last ulp
+        return ("n", float("%.12g" % (float(v) + 0.0)))
     if isinstance(v, (complex, np.complexfloating)):
-        return ("c", float(v.real), float(v.imag))
+        return ("c", float("%.12g" % v.real), float("%.12g" % v.imag))
     return ("o", repr(v))
 
 
